@@ -1,13 +1,20 @@
 import Rc.Model.Reenc
+import Rc.Model.Update
 /-! C07 line protocol (model side).
 
 requests
   re <attrs>                    the attribute section of an UPDATE without NLRI; the PDU is
                                  `mkPdu [] attrs []` (at most 4096 octets, else bad-op)
+  re2 <attrs> / re2w <attrs>    the same in a two-octet session; `re2w`: the section holds an attribute
+                                 whose encoding depends on the AS number width (`hasWidthDependent`),
+                                 `re2`: it holds none (otherwise bad-op)
   nl <fam> <wd> <ann> <attrs>   an UPDATE carrying the NLRI octets `wd` / `ann` of one family:
-                                 fam = c4 (IPv4 unicast in the conventional sections) or
-                                 v4u v4m v6u v6m v6fs (MP_UNREACH_NLRI / MP_REACH_NLRI, next hop
-                                 octets 0x01); `attrs` must not hold attributes 14 / 15
+                                 fam = c4 (IPv4 unicast in the conventional sections) or one of the 13
+                                 families v4u v4m v4mpls v4vpn v4rt v4fs v6u v6m v6mpls v6vpn v6fs vpls
+                                 evpn (MP_UNREACH_NLRI / MP_REACH_NLRI, next hop octets 0x01), with the
+                                 suffix `a` in a session that has ADD-PATH for the family (path ids in
+                                 the NLRI, builder of the ADD-PATH NLRI type); `attrs` must not hold
+                                 attributes 14 / 15
 replies
   re:  rej | panic | ok D<hex>#<sum compose_len> M<hex>#<bytes_len> B<pdu hex>
        (Derr / Merr / Berr for a route that returns an error)
@@ -29,25 +36,31 @@ def showRoute (tag : String) (bs : Outcome Bytes) (n : Outcome Nat) : Option Str
   | .ok b, .ok k => some s!"{tag}{hexOrDash b}#{k}"
   | _, _ => some s!"{tag}err"
 
-def handleRe (attrs : Bytes) : String :=
+/-- `two = none`: four-octet session; `some w`: two-octet session and the line claims (`w`) a
+width-dependent attribute -/
+def handleRe (two : Option Bool) (attrs : Bytes) : String :=
+  let four := two.isNone
   let pdu := mkPdu [] attrs []
   if pdu.length > 4096 then "bad-op" else
+  if (match two with | some w => hasWidthDependent attrs.length attrs != w | none => false) then "bad-op" else
+  -- `UpdateMessage::from_octets`: the attributes are validated with `PduParseInfo::default()`
+  -- whatever the session (update.rs:945), so acceptance does not depend on the width
   match parsePdu pdu with
   | .err => "rej"
   | .panic => "panic"
   | .ok _ =>
     let d : Option String :=
-      match ownedList attrs with
+      match ownedListW four attrs with
       | .ok ds => showRoute "D" (encList ds) (lenList ds)
       | .err => some "Derr"
       | .panic => none
     let m : Option String :=
-      match mapOf attrs with
+      match mapOfW four attrs with
       | .ok mp => showRoute "M" (encList mp) (lenList mp)
       | .err => some "Merr"
       | .panic => none
     let b : Option String :=
-      match viaBuilder attrs with
+      match viaBuilderW four attrs with
       | .ok p => some s!"B{hexOfBytes p}"
       | .err => some "Berr"
       | .panic => none
@@ -58,18 +71,37 @@ def handleRe (attrs : Bytes) : String :=
 structure FamInfo where
   fam : Rc.Nlri.Fam
   conv : Bool
+  ap : Bool
   afi : Nat
   safi : Nat
+  /-- octets of the family's default next hop (`NextHop::new`, nexthop.rs:25) -/
   nh : Nat
 
-def famOf (s : String) : Option FamInfo :=
-  if s = "c4" then some ⟨.v4u, true, 1, 1, 4⟩
-  else if s = "v4u" then some ⟨.v4u, false, 1, 1, 4⟩
-  else if s = "v4m" then some ⟨.v4m, false, 1, 2, 4⟩
-  else if s = "v6u" then some ⟨.v6u, false, 2, 1, 16⟩
-  else if s = "v6m" then some ⟨.v6m, false, 2, 2, 16⟩
-  else if s = "v6fs" then some ⟨.v6fs, false, 2, 133, 0⟩
+def baseOf (s : String) : Option (Rc.Nlri.Fam × Nat) :=
+  if s = "v4u" then some (.v4u, 4) else if s = "v4m" then some (.v4m, 4)
+  else if s = "v4mpls" then some (.v4mpls, 4) else if s = "v4vpn" then some (.v4vpn, 12)
+  else if s = "v4rt" then some (.v4rt, 4) else if s = "v4fs" then some (.v4fs, 0)
+  else if s = "v6u" then some (.v6u, 16) else if s = "v6m" then some (.v6m, 16)
+  else if s = "v6mpls" then some (.v6mpls, 16) else if s = "v6vpn" then some (.v6vpn, 24)
+  else if s = "v6fs" then some (.v6fs, 0)
+  else if s = "vpls" then some (.vpls, 4) else if s = "evpn" then some (.evpn, 4)
   else none
+
+def famOf (s : String) : Option FamInfo :=
+  let mk (f : Rc.Nlri.Fam) (nh : Nat) (conv ap : Bool) : FamInfo :=
+    ⟨f, conv, ap, (Rc.Upd.famCode f).1, (Rc.Upd.famCode f).2, nh⟩
+  if s = "c4" then some (mk .v4u 4 true false)
+  else if s = "c4a" then some (mk .v4u 4 true true)
+  else
+    match baseOf s with
+    | some (f, nh) => some (mk f nh false false)
+    | none =>
+      match s.toList.reverse with
+      | 'a' :: r =>
+        match baseOf (String.ofList r.reverse) with
+        | some (f, nh) => some (mk f nh false true)
+        | none => none
+      | _ => none
 
 /-- an MP attribute as the harness frames it: optional non-transitive, extended
 length above 255 octets -/
@@ -86,15 +118,20 @@ def hasMp : Nat → Bytes → Bool
     | some (_, tc, _, r) => tc.toNat == 14 || tc.toNat == 15 || hasMp f r
 
 /-- re-added NLRI of one section: composed octets and summed `compose_len` -/
-def nlSide (f : Rc.Nlri.Fam) (bs : Bytes) : Outcome (Bytes × Nat) :=
-  match readd (Rc.Nlri.codec f) bs with
+def nlSideC {α} (c : Rc.Nlri.Codec α) (bs : Bytes) : Outcome (Bytes × Nat) :=
+  match readd c bs with
   | .ok ns =>
-    match Rc.Nlri.encAll (Rc.Nlri.codec f) ns with
-    | .ok e => .ok (e, clenSum (Rc.Nlri.codec f) ns)
+    match Rc.Nlri.encAll c ns with
+    | .ok e => .ok (e, clenSum c ns)
     | .err => .err
     | .panic => .panic
   | .err => .err
   | .panic => .panic
+
+/-- the builder's NLRI type decides whether path ids are read (`typed_announcements::<_, A>`,
+update.rs:437, does not consult the session) -/
+def nlSide (f : Rc.Nlri.Fam) (ap : Bool) (bs : Bytes) : Outcome (Bytes × Nat) :=
+  if ap then nlSideC (Rc.Nlri.codecAp f) bs else nlSideC (Rc.Nlri.codec f) bs
 
 def handleNl (fi : FamInfo) (wd ann attrs : Bytes) : String :=
   if hasMp attrs.length attrs then "bad-op" else
@@ -106,7 +143,12 @@ def handleNl (fi : FamInfo) (wd ann attrs : Bytes) : String :=
       (if wd.isEmpty then [] else mpAttr 15 (be16 fi.afi ++ [UInt8.ofNat fi.safi] ++ wd)) ++ attrs
   let pdu := if fi.conv then mkPdu wd sec ann else mkPdu [] sec []
   if pdu.length > 4096 then "bad-op" else
-  match parsePdu pdu with
+  -- an ADD-PATH session: `SessionConfig::modern()` + `add_addpath_rxtx(family)`; the conventional
+  -- sections are then validated with path ids (update.rs:924, 1000: `Rc.Upd.parseUpdate`)
+  let accepted : Outcome Unit :=
+    if fi.ap then Rc.Upd.mapO (fun _ => ()) (Rc.Upd.parseUpdate ⟨true, [((fi.afi, fi.safi), .both)]⟩ pdu)
+    else Rc.Upd.mapO (fun _ => ()) (parsePdu pdu)
+  match accepted with
   | .err => "rej"
   | .panic => "panic"
   | .ok _ =>
@@ -114,7 +156,7 @@ def handleNl (fi : FamInfo) (wd ann attrs : Bytes) : String :=
     | .panic => "panic"
     | .err => "err"
     | .ok m =>
-      match nlSide fi.fam ann, nlSide fi.fam wd, lenList m, encList m with
+      match nlSide fi.fam fi.ap ann, nlSide fi.fam fi.ap wd, lenList m, encList m with
       | .panic, _, _, _ => "panic"
       | _, .panic, _, _ => "panic"
       | _, _, .panic, _ => "panic"
@@ -128,7 +170,15 @@ def handle (ws : List String) : String :=
   match ws with
   | ["re", a] =>
     match strictHex a with
-    | some attrs => handleRe attrs
+    | some attrs => handleRe none attrs
+    | none => "bad-op"
+  | ["re2", a] =>
+    match strictHex a with
+    | some attrs => handleRe (some false) attrs
+    | none => "bad-op"
+  | ["re2w", a] =>
+    match strictHex a with
+    | some attrs => handleRe (some true) attrs
     | none => "bad-op"
   | ["nl", f, w, a, t] =>
     match famOf f, strictHex w, strictHex a, strictHex t with
